@@ -62,7 +62,7 @@ LEVEL_NOTE = ("Unmodelled: the Hungarian/LAPJV algorithm of scipy.optimize.linea
               "bit-exact comparison of reported affinities still uses it. Histories are generator-bounded: sequences of 2-4 calls "
               "over neighbours of a call (other buffers, buffers omitted, exchanged lists, a moved / added geometry, reused, "
               "assigned-to and copied objects, lists edited in place, lazily interleaved generators), plus a pristine-process "
-              "probe (a forked server that imported the library and never called it) as purity monitor: every 7th call must give "
+              "probe (a forked server that imported the library and never called it) as purity monitor: every 9th call must give "
               "the same answer there; a failing call that answers differently there is turned into a short history that "
               "reproduces in a fresh process. State that hinges on object identities (id-keyed caches) is detected but its "
               "replays are only deterministic for the reuse-by-assignment histories. Beyond the symbolic ties at fixed small "
@@ -84,7 +84,7 @@ RULE = ("lists of 0-5 (thorough 0-7) geometries on tie-rich grids (near-miss ins
         "match_geometries with compute_affinity stubbed, and with the solver's answer stubbed as well; histories: 110 (900) "
         "sequences of 2-4 calls of match_geometries (fresh / reused / assigned-to / copied objects, in-place list edits, poisoned "
         "results, results re-read after later calls, arguments snapshotted), 50 (400) lazily interleaved pairs / triples, "
-        "sequences of stubbed calls of one shape, every 7th call repeated in a pristine process; non-trivial = at least one "
+        "sequences of stubbed calls of one shape, every 9th call repeated in a pristine process; non-trivial = at least one "
         "source and one target (histories: a step answered); distinct = distinct (operation, input)")
 TRUSTED = ["scipy.optimize.linear_sum_assignment (answer checked per case: ValidAssignment, optimal within tolerance)",
            "GEOS (shapely) called by the harness on shapes built from the coordinates: area, intersection area, bounds, and buffer "
@@ -890,7 +890,7 @@ def _holds_match(ctx, inp, io):
         return msg
     if msg is None:
         _PROBE["n"] += 1
-        if _PROBE["n"] % 7 == 0 and "raise" not in io:
+        if _PROBE["n"] % 9 == 0 and "raise" not in io:
             # purity monitor: the answer must not depend on the calls made earlier in this process
             alone = _fresh().run({"seq": [{"inp": inp}]})
             if alone is not None:
@@ -912,7 +912,7 @@ def _holds_matrix_probed(ctx, inp, io):
         return msg
     if msg is None and inp["n"] * inp["m"] <= 64:
         _PROBE["n"] += 1
-        if _PROBE["n"] % 53 == 0 and _PROBE.get("matrix_probes", 0) < 500:
+        if _PROBE["n"] % 67 == 0 and _PROBE.get("matrix_probes", 0) < 500:
             _PROBE["matrix_probes"] = _PROBE.get("matrix_probes", 0) + 1
             alone = _fresh().run({"seq": [{"inp": inp}]}, base="match_matrix")
             if alone is not None:
